@@ -2,13 +2,21 @@
 
 Lean: Model/Auth.lean (the server's request handling with asyncio made explicit: requests are processed up to
 their first suspension, the application's begin_auth / validator awaitables complete in any order relative to
-further, pipelined requests) and Props/C05.lean (auth_sound, no_grant_by_sequencing, bad_signature_never_grants,
-post_auth_requests, client_admitted; old_code_user_switch_witness for the repaired defect F1).
+further, pipelined requests; hostbased requests name a client host and present a host key, the host they are decided
+for is the named one or the reverse lookup of the peer; keyboard-interactive objects know whether an INFO_REQUEST is
+outstanding; whose key options are in force) and Props/C05.lean (auth_sound, no_grant_by_sequencing,
+bad_signature_never_grants, post_auth_requests, client_admitted, kbd_response_needs_challenge,
+options_are_the_credentials; old_code_user_switch_witness for the repaired defect F1 and prefix_*_witness for the
+four audit findings repaired later, about the parametrised pre-repair transition function Auth.stepQ).
 Correspondence: a raw scripted client (the harness writes USERAUTH_REQUEST packets itself, pipelined or not)
 against a real SSHServerConnection whose SSHServer callbacks return harness-controlled futures; the same event
-list drives the model; replies, final user and closure are compared.
+list drives the model; replies, final user and closure are compared.  A second family of scripts (probes, bad and
+good signatures, passwords against real authorized_keys entries with options) compares whose key options are in force.
 Oracle: whenever the real server reports authentication as U, the harness's own record must contain a
-successful credential check for U on that connection.
+successful credential check for U on that connection (for hostbased: by a key trusted for the host the request is
+decided for, the application asked about that host; for keyboard-interactive: responses to a challenge the
+application issued); the restrictions in force afterwards are those of the accepted credential; a valid password or
+key is admitted whatever the state of the user's AuthorizedKeysFile (_c05_extra.py).
 """
 
 from __future__ import annotations
@@ -39,13 +47,21 @@ MANIFEST = {
             'keyboard-interactive check for u on this connection or that the application declared u needs none '
             '(auth_sound); with no acceptable credential for u no sequence authenticates as u '
             '(no_grant_by_sequencing); a signature not over this session id and this exact request never grants '
-            '(bad_signature_never_grants); later requests are ignored then fatal (post_auth_requests); a valid '
-            'credential is admitted (client_admitted). The pre-fix transition function is kept with a '
-            'machine-checked witness of defect F1 (user switch under a pending validator). Tied to the code by a '
-            'raw scripted client against a real server with controlled futures.',
+            '(bad_signature_never_grants); a hostbased request is decided for ONE host - the one it names, or the '
+            'reverse lookup of the peer unless trust_client_host - whose trusted keys and whose acceptance by the '
+            'application count, whatever earlier requests named (callHonest clause 7, bad_host_signature_never_grants); '
+            'a keyboard-interactive response reaches the application only after a challenge it issued for that user '
+            '(kbd_response_needs_challenge); the key options in force after success are those of the key whose '
+            'signature granted access (options_are_the_credentials); later requests are ignored then fatal '
+            '(post_auth_requests); a valid credential is admitted (client_admitted). The pre-fix transition functions '
+            'are kept with machine-checked witnesses of defect F1 (user switch under a pending validator) and of the '
+            'four audit findings (trusted host keys accumulating across requests, application asked about the claimed '
+            'host, INFO_RESPONSE before the challenge, stale key options). Tied to the code by a raw scripted client '
+            'against a real server with controlled futures and by flags read from the AST.',
     'note': 'signature verification is symbolic (sigOK decided by whether the harness signed session id + exact '
             'request, for publickey and hostbased alike); GSS methods are outside the model (no gssapi here); '
-            'key/certificate option enforcement after success is exercised by the oracle only',
+            'certificate options after success and the per-user AuthorizedKeysFile of the configuration are exercised '
+            'by the oracle only (real authorized_keys / files); the reverse lookup of the peer address is a parameter',
     'technique': 'Lean 4 proof by invariant over all event interleavings + scripted differential correspondence '
                  'with controlled application futures',
 }
